@@ -586,6 +586,16 @@ func (e *evaluator) eval1(v ssa.Value) *term {
 		name := "dyn"
 		if c := x.Call.StaticCallee(); c != nil {
 			name = funcID(c)
+			// binary.LittleEndian.UintN(b) is the little-endian assembly of b[0..N/8)
+			for _, n := range []int64{2, 4, 8} {
+				if name == fmt.Sprintf("(encoding/binary.littleEndian).Uint%d", 8*n) && len(args) == 2 {
+					var parts []*term
+					for j := int64(0); j < n; j++ {
+						parts = append(parts, mulTerms(K(int64(1)<<uint(8*j)), idxOf(args[1], K(j))))
+					}
+					return O("or", parts...)
+				}
+			}
 			if strings.HasPrefix(name, "math/bits.OnesCount") && len(args) == 1 {
 				return &term{op: "popcnt", args: args}
 			}
@@ -640,6 +650,18 @@ func termNonNeg(t *term) bool {
 		return t.name == "u"
 	}
 	return false
+}
+
+// idxOf builds base[i], looking through a reslice: x[lo:hi][i] == x[lo+i].
+func idxOf(base *term, i *term) *term {
+	if base.op == "slice" && len(base.args) == 3 {
+		lo := base.args[1]
+		if lo.op == "sym" && lo.name == "_" {
+			lo = K(0)
+		}
+		return ON("idx", "", base.args[0], O("add", lo, i))
+	}
+	return ON("idx", "", base, i)
 }
 
 func maxInt(a, b int) int {
